@@ -89,7 +89,19 @@ MASK64 = [0, 1, 1 << 63, (1 << 63) | 1, 3 << 62, (1 << 64) - 1]
 MASK32 = [0, 1, 1 << 31, (1 << 31) | (1 << 30), 6 << 28, 1 << 30, (1 << 32) - 1]
 
 
-def build(tabs, ident, rng, maxcount=3, mode="rand", maskmode=None, force_counts=None, pad="zero", max_bits=8184, label=1):
+LAST_ERROR = [None]
+
+
+def build(tabs, ident, rng, **kw):
+    """robust wrapper: a layout the encoder cannot walk (malformed table) yields None, with the reason in LAST_ERROR"""
+    try:
+        return _build(tabs, ident, rng, **kw)
+    except Exception as e:  # noqa
+        LAST_ERROR[0] = "%s: %r" % (ident, e)
+        return None
+
+
+def _build(tabs, ident, rng, maxcount=3, mode="rand", maskmode=None, force_counts=None, pad="zero", max_bits=8184, label=1):
     """Encode one message of identity `ident`.  Returns Built or None if it would not fit max_bits.
     force_counts: dict counter-name -> value (applied when the counter field is generated)."""
     DF = tabs.DF
@@ -101,6 +113,9 @@ def build(tabs, ident, rng, maxcount=3, mode="rand", maskmode=None, force_counts
     exp = []
     mid, sub = ident_header(ident)
     st = {"satids": [], "sigids": [], "sat": [], "cell": [], "label": label}
+    pc = {}
+    pcl = {}
+    b.pathcounts = pc
 
     def setexp(n, v):
         for i, (nn, _) in enumerate(exp):
@@ -114,7 +129,7 @@ def build(tabs, ident, rng, maxcount=3, mode="rand", maskmode=None, force_counts
         bits.append((val, w))
         b.nbits += w
 
-    def walk(d, idx):
+    def walk(d, idx, path=()):
         for k, v in d.items():
             if b.nbits > max_bits:
                 return
@@ -122,11 +137,15 @@ def build(tabs, ident, rng, maxcount=3, mode="rand", maskmode=None, force_counts
                 c, body = v
                 if isinstance(c, tuple):
                     if env[c[0]] == c[1]:
-                        walk(body, idx)
+                        spath = path + ("?%s=%d" % (c[0], c[1]),)
+                        pcl[(spath, k)] = pcl.get((spath, k), 0) + 1
+                        walk(body, idx, spath)
                     continue
                 if isinstance(c, int):
                     n = c
+                    spath = path
                 else:
+                    spath = path + (c,)
                     if "+" in c:
                         kk, nl = c.split("+")
                         kk = name_of(kk, idx[:int(nl)])
@@ -136,7 +155,9 @@ def build(tabs, ident, rng, maxcount=3, mode="rand", maskmode=None, force_counts
                     if kk == "IDF035":
                         n += 1
                 for i in range(n):
-                    walk(body, idx + [i + 1])
+                    if spath != path:
+                        pcl[(spath, k)] = pcl.get((spath, k), 0) + 1
+                    walk(body, idx + [i + 1], spath)
                 continue
             t, w, res, _ = DF[k]
             nm = name_of(k, idx)
@@ -155,6 +176,7 @@ def build(tabs, ident, rng, maxcount=3, mode="rand", maskmode=None, force_counts
                 val = sub
             elif k == "DF396":
                 w = env["NSat"] * env["NSig"]
+                pc[path + ("#NSat", "#NSig")] = w
                 if maskmode == "full":
                     val = (1 << w) - 1
                 elif maskmode == "empty":
@@ -240,6 +262,8 @@ def build(tabs, ident, rng, maxcount=3, mode="rand", maskmode=None, force_counts
                 env["_NHarmCoeffS"] = nc - (N + 1)
 
     walk(layout, [])
+    for (sp, _lbl), cnt in pcl.items():
+        pc[sp] = max(pc.get(sp, 0), cnt)
     if b.nbits > max_bits:
         return None
     v = 0
